@@ -30,7 +30,7 @@ PROPS = {
     assumptions=[A['A2'], A['A6'], A['A7'], A['A9']],
     explanation='every function of fq4.rs / fq12.rs verified against F_q[w]/(w^12+2) on arbitrary elements; Frobenius maps against x^(q^k) with constants recomputed exactly; both final exponentiations by exponent contracts: result = x^e with e = (q^12-1)/r mod q^12-1'),
  'C11': dict(
-    tasks=T('mirvc:specs_tower', 'search:specs_tower', 'mirvc:specs_lib', 'mirvc:specs_loops', 'mirvc:specs_fexp', 'pairsearch:all', 'ground:all'),
+    tasks=T('mirvc:specs_tower', 'search:specs_tower', 'mirvc:specs_lib', 'mirvc:specs_loops', 'mirvc:specs_fexp', 'verus:divrem', 'verus:invr', 'pairsearch:all', 'ground:all'),
     trusted_base=[A['A2'], A['A7'], A['A9'], A['L2']],
     assumptions=[A['A2'], A['A6'], A['A7'], A['A9']],
     explanation='Gt::mul / inverse / one are the Fq12 operations (delegation + tower obligations); Gt::pow is the generic square-and-multiply loop with invariant res = g^prefix; == and to_slice are coordinate-wise; reduction of exponents mod r uses g^r = 1 (final exponent contract + A2)'),
@@ -60,8 +60,8 @@ PROPS = {
     assumptions=[A['A6'], A['A7'], A['A9']],
     explanation='(under construction) conversion contracts'),
  'C05': dict(
-    tasks=T('mirvc:specs_loops', 'mirvc:specs_lib', 'mirvc:specs_groups', 'gsearch:all', 'lsearch:all', 'ground:all'),
-    trusted_base=[A['A3'], A['A4'], A['A7'], A['A9'], 'hand-over: U256::from(Fr) = canonical value; bits_without_leading_zeros yields the binary digits (limb-level obligations)'],
+    tasks=T('mirvc:specs_loops', 'mirvc:specs_lib', 'mirvc:specs_groups', 'verus:divrem', 'verus:invr', 'gsearch:all', 'lsearch:all', 'ground:all'),
+    trusted_base=[A['A3'], A['A4'], A['A7'], A['A9'], 'hand-over (by statement, not machine-linked): U256::from(Fr) = canonical value and BitIterator::next = bit n-1 of it, both E1 obligations; SkipWhile over it yields the binary digits from the leading 1 (core iterator semantics, A9)'],
     assumptions=[A['A3'], A['A4'], A['A6'], A['A7']],
     explanation='double-and-add loop of Mul<Fr> for G<P> verified with the inductive invariant pt(res) = [prefix] pt(self) over the abstract group; wrappers k*P / P*k are delegation obligations; double/+= meet the group law (C04 obligations)'),
  'C08': dict(
@@ -80,7 +80,7 @@ PROPS = {
     assumptions=[A['A6'], A['A7']],
     explanation='(under construction) canonicity'),
  'C14': dict(
-    tasks=T('mirvc:specs_sqrt', 'mirvc:specs_loops', 'lsearch:all', 'mirvc:specs_lib', 'csearch:debug', 'ground:all'),
+    tasks=T('verus:divrem', 'mirvc:specs_sqrt', 'mirvc:specs_loops', 'lsearch:all', 'mirvc:specs_lib', 'csearch:debug', 'ground:all'),
     trusted_base=[A['A2'], A['A7']],
     assumptions=[A['A2'], A['A7']],
     explanation='Fq::sqrt in the exponent domain under Euler\'s three cases: sqrt(0) = 0, Some(s) with s*s = x on every path for non-zero squares (sound + complete), None for non-squares; pow by the loop-invariant obligation; Fq2::sqrt: every returned root squares to x (17 paths, incl. the zero-imaginary branch), sqrt(0) = 0; completeness of Fq2::sqrt is not decided by proof (search only); decoders rely on it through csearch'),
